@@ -231,7 +231,7 @@ def run(pid, tier, seed):
             m2 = re.findall(r"^State (\d+):", o, flags=re.M)
             bad = (int(m2[-1]) - 1) if m2 else 1
         elif "Model checking completed" not in o or "Error:" in o:
-            raise ToolError("TCP trace validation did not run cleanly:\n" + "\n".join(o.splitlines()[-25:]))
+            raise ToolError("TCP trace validation did not run cleanly:\n" + "\n".join(l[:300] for l in o.splitlines()[-25:]))
         if bad is None:
             validated += len(sub)
             break
